@@ -5,6 +5,9 @@ import AcraModel.Envelope.ProtectLemmas
 import AcraModel.Envelope.ScanLemmas
 import AcraModel.Envelope.ExampleOps
 import AcraModel.Envelope.TranslatorLemmas
+import AcraModel.Envelope.SearchWriteLemmas
+import AcraModel.Envelope.SearchWriteBare
+import AcraModel.Generated.SearchWrite
 import AcraModel.Crypto.Box
 /-!
 # C01 — protect-then-reveal returns the original bytes for the owning client
@@ -992,6 +995,175 @@ theorem entry_point_table_complete :
 
 end TranslatorOps
 
+/-! ## the searchable write path for values that arrive ALREADY protected
+
+A searchable column is written through `hmac.SearchableDataEncryptor.EncryptWithClientID`
+(`Searchable.searchableEncrypt`, the model C09 uses too). An application may hand the proxy a value that
+already is protected for the client – an AcraStruct made by AcraWriter, a raw AcraBlock, a serialized
+container from AcraTranslator. The encryptor then keeps the value as it arrived and puts in front of it
+the search hash of what the value DECRYPTS to. The owner reads the column through the subscriber chain
+`hmac.Processor → OldContainerDetectorWrapper/EnvelopeDetector/DecryptHandler → hmac.Processor`
+(`Searchable.column` over `Searchable.clientDetector`): the hash is cut off, the envelope decrypted and
+the hash verified against the decrypted bytes – only then does the client receive them. -/
+
+section SearchableWrite
+open AcraModel.Envelope.Translator AcraModel.Searchable
+
+/-- What the model `searchableEncrypt` takes from the source of
+`SearchableDataEncryptor.EncryptWithClientID` (`Generated/SearchWrite.lean`, regenerated from
+`hmac/dataEncryptor.go`): the branch is taken on `e.decryptor.MatchDataSignature(data)`; nothing is hashed
+before the branch; in the branch of an already protected value the arriving bytes are kept
+(`encryptedData = data`) BEFORE `data` is replaced by the decryptor's output and the hash is computed
+AFTER that replacement – i.e. over the plaintext –; in the other branch the hash is computed over the
+value and the value is then encrypted; the result is `hash ++ encryptedData`. -/
+theorem fact_searchable_write_flow :
+    Generated.SearchWrite.matchCond = "e.decryptor.MatchDataSignature(data)" ∧
+    Generated.SearchWrite.hashCalls = [("match", "data", true), ("else", "data", false)] ∧
+    Generated.SearchWrite.preBranchAssigns = ["key, err := e.keystore.GetHMACSecretKey(clientID)"] ∧
+    Generated.SearchWrite.matchBranchAssigns.head? = some "encryptedData = data" ∧
+    Generated.SearchWrite.matchBranchAssigns.reverse.take 2 =
+      ["hash = GenerateHMAC(key, data)", "data, err = e.decryptor.Process(data, processorContext)"] ∧
+    Generated.SearchWrite.elseBranchAssigns =
+      ["hash = GenerateHMAC(key, data)", "encryptedData, err = e.dataEncryptor.EncryptWithClientID(clientID, data, setting)"] ∧
+    Generated.SearchWrite.returns = "append(hash, encryptedData...)" := by
+  decide
+
+/-- **Write side, every pre-protected form.** Whatever the arriving value `e` is – serialized container,
+bare AcraStruct, bare AcraBlock –: if the registry handler recognises it (`registryMatch`) and opens it
+to `m` with the keys of the writing session, the searchable encryptor stores `GenerateHMAC(key, m) ++ e`:
+the value unchanged behind the blind index of its PLAINTEXT (the same index a write of `m` in clear
+gets); if it cannot be opened, the write fails and nothing is stored. -/
+theorem searchable_write_preprotected (c : CryptoOps) (hl : HashLen c) (hk : Bytes) (kvS : KeyView) (k : Kind)
+    (e rnd : Bytes) (hm : registryMatch e = true) :
+    (∀ m, process c kvS e = .ok m →
+      searchableEncrypt c (some hk) kvS k e rnd = .ok (generateHMAC c hk m ++ e) ∧
+      index (generateHMAC c hk m ++ e) = generateHMAC c hk m) ∧
+    (process c kvS e = .err → searchableEncrypt c (some hk) kvS k e rnd = .err) :=
+  ⟨fun m hd => ⟨searchableEncrypt_match c hk kvS k e m rnd hm hd, index_stored c hl hk m e⟩,
+   fun hd => searchableEncrypt_match_err c hk kvS k e rnd hm hd⟩
+
+/-- **Protect, write to a searchable column, read back – every pre-protected form.** Let `e` be a value
+the registry handler recognises and opens to `m` with the writing session's keys; let the column
+matcher recognise it (`matchEnvelope`) and the owner's detector chain decrypt it to `m`. Then the write
+succeeds and the owner's read chain – from ANY state the `hmac.Processor` was left in – delivers
+exactly `m`. (The four hypotheses are discharged for serialized containers in
+`searchable_preprotected_container_roundtrip`; for bare envelopes they are checked on the generated
+values by the correspondence ops `C01.handler.match`, `C01.handler.reveal`, `C09.match`,
+`C01.detector.compat`.) -/
+theorem searchable_preprotected_roundtrip (c : CryptoOps) (hl : HashLen c) (hk : Bytes) (kvS kvR : KeyView)
+    (k : Kind) (e m rnd : Bytes) (st : PState) (hit : Bool)
+    (hm : registryMatch e = true) (hd : process c kvS e = .ok m)
+    (hme : matchEnvelope e = .ok true) (hdet : clientDetector c kvR e = .ok m hit) :
+    ∃ s, searchableEncrypt c (some hk) kvS k e rnd = .ok s ∧ index s = generateHMAC c hk m ∧
+      column c (some hk) (clientDetector c kvR) st s = .ok (PState.init, some m) := by
+  refine ⟨_, searchableEncrypt_match c hk kvS k e m rnd hm hd, index_stored c hl hk m e, ?_⟩
+  have he := extractHash_stored c hl hk m e
+  have hdrop : (generateHMAC c hk m ++ e).drop (generateHMAC c hk m).length = e := by simp
+  have hc := column_searchable c (some hk) (clientDetector c kvR) st _ (generateHMAC c hk m) m hit he
+    (by rw [hdrop]; exact hme) (by rw [hdrop]; exact hdet)
+  rw [hc, isEqual_genuine]
+  rfl
+
+/-- **The serialized-container form, all hypotheses discharged.** `p` is what `protect` (library,
+registry handler, AcraTranslator – `producers_agree`) made of an unprotected `m` under the writer's keys
+`kvW` with envelope kind `kw`. The application writes `p` to a searchable column (configured envelope
+kind `k`, any randomness) in a session whose keys `kvS` open it, and the owner with keys `kvR` reads the
+column back (`RoundTripHyps` between the writer and either key view, e.g. the same client before and
+after rotations). Then the stored value is `GenerateHMAC(key, m) ++ p`, its blind index is the index of
+`m`, and the read chain returns exactly `m`. -/
+theorem searchable_preprotected_container_roundtrip (c : CryptoOps) (hl : HashLen c) (kw k : Kind)
+    (kvW kvS kvR : KeyView) (hk m rnd rnd' p : Bytes) (st : PState)
+    (hypS : RoundTripHyps c kw kvW kvS m rnd p) (hypR : RoundTripHyps c kw kvW kvR m rnd p)
+    (hnm : matchKind kw m = false) (hnr : registryMatch m = false)
+    (hp : protect c kvW kw m rnd = .ok p) :
+    searchableEncrypt c (some hk) kvS k p rnd' = .ok (generateHMAC c hk m ++ p) ∧
+    index (generateHMAC c hk m ++ p) = generateHMAC c hk m ∧
+    column c (some hk) (clientDetector c kvR) st (generateHMAC c hk m ++ p) = .ok (PState.init, some m) := by
+  have hrS : process c kvS p = .ok m := reveal_protect c kw kvW kvS m rnd p hypS hnm hnr hp
+  have hrR : process c kvR p = .ok m := reveal_protect c kw kvW kvR m rnd p hypR hnm hnr hp
+  obtain ⟨e, rfl, he, hlen, hmatch, _⟩ := protect_facts c kw kvW kvS m rnd p hypS hnm hnr hp
+  have hdecR : decryptKind c kvR kw e = .ok m := by
+    have := c01_process_ser c kvR kw e [] he (by omega) hmatch
+    rw [List.append_nil] at this
+    rw [← this]; exact hrR
+  have hreg : registryMatch (serBytes e kw.id) = true := by
+    have := c01_registryMatch_ser kw e [] he (by omega) hmatch
+    rwa [List.append_nil] at this
+  have hne : m ≠ serBytes e kw.id ++ [] := by
+    intro h
+    rw [List.append_nil] at h
+    rw [← h, hnr] at hreg
+    cases hreg
+  have hme : matchEnvelope (serBytes e kw.id) = .ok true := by
+    have := matchEnvelope_ser e [] kw.id kw he (c01_kindOfId_id kw) hlen
+    rwa [List.append_nil] at this
+  have hdet : clientDetector c kvR (serBytes e kw.id) = .ok m true := by
+    have := (onColumn_reveal_embedded c kvR kw e [] [] m [fun _ => Cb.same] [] he hlen hmatch hdecR hne
+      (fun cb hcb => Or.inl (by rw [List.mem_singleton.1 hcb])) (by intro i hi; cases hi)).2
+    simp only [List.nil_append, List.append_nil, List.singleton_append, c01_scan_nil, ScanOut.prepend, Bool.or_true] at this
+    unfold clientDetector onColumnCompat
+    rw [this]
+    rfl
+  obtain ⟨s, hs, hi, hc⟩ := searchable_preprotected_roundtrip c hl hk kvS kvR k _ m rnd' st true hreg hrS hme hdet
+  rw [searchableEncrypt_match c hk kvS k _ m rnd' hreg hrS] at hs
+  cases hs
+  exact ⟨searchableEncrypt_match c hk kvS k _ m rnd' hreg hrS, hi, hc⟩
+
+/-- **The bare AcraStruct form (AcraWriter), all hypotheses about the envelope itself.** `e` is a
+well-formed AcraStruct with a non-empty payload that the struct handler opens to `m` with the session's
+keys `kvS` and with the owner's keys `kvR`. No crypto law is needed: the statement is about what the
+code does with such a value. Two side conditions come from in-band signalling in the reader's legacy
+scans (they are decidable, evaluated by the model for the generated values, and hold whenever the
+ciphertext contains no `%%%`+header look-alike and the plaintext no envelope look-alike): `hw` – the
+container scan passes over every position of `e` (`windowOk`, the condition of C11 §8); `hm` – the
+PLAINTEXT contains no bare AcraBlock/AcraStruct the reader can open (automatic for plaintexts shorter
+than 18 bytes, `short_plain_not_opened`). Then the write stores `GenerateHMAC(key, m) ++ e` and the owner's
+read chain returns exactly `m`. -/
+theorem searchable_preprotected_bare_struct_roundtrip (c : CryptoOps) (hl : HashLen c) (k : Kind)
+    (kvS kvR : KeyView) (hk e m rnd : Bytes) (st : PState)
+    (hv : validateStruct e = .ok ()) (hgt : structMin < e.length) (hlen : e.length + 12 < 2^63)
+    (hdS : decryptKind c kvS .struct e = .ok m) (hdR : decryptKind c kvR .struct e = .ok m)
+    (hne : m ≠ serBytes e idStruct) (hw : windowOk e [] = true)
+    (hm : ∀ x id s, x <:+: m → serialize x id = .ok s → ∀ m', process c kvR s ≠ .ok m') :
+    searchableEncrypt c (some hk) kvS k e rnd = .ok (generateHMAC c hk m ++ e) ∧
+    index (generateHMAC c hk m ++ e) = generateHMAC c hk m ∧
+    column c (some hk) (clientDetector c kvR) st (generateHMAC c hk m ++ e) = .ok (PState.init, some m) := by
+  obtain ⟨hreg, hproc⟩ := bare_struct_registry c kvS e hv
+  have hpS : process c kvS e = .ok m := by rw [hproc, hdS]
+  have hme := matchEnvelope_bare_struct e hv hgt (by omega)
+  have hdet := clientDetector_bare_struct c kvR e m hv hgt hlen hdR hne hw hm
+  obtain ⟨s, hs, hi, hc⟩ := searchable_preprotected_roundtrip c hl hk kvS kvR k e m rnd st false hreg hpS hme hdet
+  rw [searchableEncrypt_match c hk kvS k e m rnd hreg hpS] at hs
+  cases hs
+  exact ⟨searchableEncrypt_match c hk kvS k e m rnd hreg hpS, hi, hc⟩
+
+/-- **The raw AcraBlock form.** `e` is exactly one AcraBlock (longer than the bare header) that is not at
+the same time a well-formed AcraStruct (`hns`; an AcraBlock whose length field spells the second half of
+the AcraStruct tag would be longer than 572 MB) and that the block handler opens to `m` with either key
+view. Side conditions as above: `hw` – the container scan passes over `e`; `hs` – no part of `e`,
+wrapped as an AcraStruct container, opens for the reader (automatic for a client without private keys,
+`process_struct_container_no_privs`; the legacy struct scan runs over the block first). -/
+theorem searchable_preprotected_bare_block_roundtrip (c : CryptoOps) (hl : HashLen c) (k : Kind)
+    (kvS kvR : KeyView) (hk e m rnd : Bytes) (st : PState)
+    (hns : validateStruct e = .err) (hx : extractBlock e = .ok (e.length, e)) (hgt : blockMin < e.length)
+    (hlen : e.length + 12 < 2^63)
+    (hdS : decryptKind c kvS .block e = .ok m) (hdR : decryptKind c kvR .block e = .ok m)
+    (hne : m ≠ serBytes e idBlock) (hw : windowOk e [] = true)
+    (hs : ∀ x s, x <:+: e → serialize x idStruct = .ok s → ∀ m', process c kvR s ≠ .ok m') :
+    searchableEncrypt c (some hk) kvS k e rnd = .ok (generateHMAC c hk m ++ e) ∧
+    index (generateHMAC c hk m ++ e) = generateHMAC c hk m ∧
+    column c (some hk) (clientDetector c kvR) st (generateHMAC c hk m ++ e) = .ok (PState.init, some m) := by
+  obtain ⟨hreg, hproc⟩ := bare_block_registry c kvS e e e.length hns hx
+  have hpS : process c kvS e = .ok m := by rw [hproc, hdS]
+  have hme := matchEnvelope_bare_block e hx hgt
+  have hdet := clientDetector_bare_block c kvR e m hx hgt hlen hdR hne hw hs
+  obtain ⟨s, hs', hi, hc⟩ := searchable_preprotected_roundtrip c hl hk kvS kvR k e m rnd st false hreg hpS hme hdet
+  rw [searchableEncrypt_match c hk kvS k e m rnd hreg hpS] at hs'
+  cases hs'
+  exact ⟨searchableEncrypt_match c hk kvS k e m rnd hreg hpS, hi, hc⟩
+
+end SearchableWrite
+
 /-! ## non-vacuity: every hypothesis bundle above is satisfied by a concrete instance -/
 
 
@@ -1228,6 +1400,118 @@ example :
   refine ⟨p, henc, translator_roundtrip_block toyOps stW stR [99] [9,9] _ p hH hnm hnr henc, hencS, hsep, hcat, ?_⟩
   intro P C hacc
   exact ⟨hall P, entry_points_agree toyOps toy_hashLen P C .block stW stR [99] [7] [9,9] _ p (by decide) (fun _ => ⟨[7], rfl⟩) rfl hH hnm hnr hacc (hall P)⟩
+
+/-- 8b: the searchable write path with a value that arrives already protected (stand-in with 32-byte
+hashes): `[9,9]` protected as a serialized AcraBlock container by a writer with key `[1,2,3]` is written to
+a searchable column (configured kind AcraStruct, other randomness) in a session whose rotated key list
+still holds `[1,2,3]`; the stored value is the index of `[9,9]` followed by the container as it arrived,
+and the owner's read chain – from a processor state left dirty on purpose – returns `[9,9]`. -/
+example :
+    let kvW : KeyView := ⟨none, none, some [1,2,3], none⟩
+    let kvR : KeyView := ⟨none, none, some [4,5], some ([[4,5]] ++ [1,2,3] :: [[1,2,9]])⟩
+    let dirty : Searchable.PState := ⟨some [1], some [2], [3]⟩
+    ∃ p, protect toyOps kvW .block [9,9] (List.replicate 56 5) = .ok p ∧
+      Searchable.searchableEncrypt toyOps (some [7]) kvR .struct p (List.replicate 96 6) =
+        .ok (Searchable.generateHMAC toyOps [7] [9,9] ++ p) ∧
+      Searchable.column toyOps (some [7]) (Searchable.clientDetector toyOps kvR) dirty
+        (Searchable.generateHMAC toyOps [7] [9,9] ++ p) = .ok (Searchable.PState.init, some [9,9]) := by
+  intro kvW kvR dirty
+  have hs := toy_sealLaws
+  have hsl := toy_sealLen
+  have hkid := keyId_length toyOps toy_hashLen [1,2,3] []
+  have hnm : matchKind .block [9,9] = false := by decide
+  have hnr : registryMatch [9,9] = false := by decide
+  obtain ⟨p, hp⟩ := protect_block_total toyOps hs kvW [1,2,3] [9,9] (List.replicate 56 5) rfl (by decide) (by decide)
+    (by decide) (by decide)
+  obtain ⟨hpl, _⟩ := protect_block_length toyOps hs hsl kvW [1,2,3] [9,9] _ p rfl hkid hnm hnr hp
+  have hpl' : p.length = 152 := hpl
+  have hek : ∀ encKey, toyOps.enc [1,2,3] [] ((List.replicate 56 5).take 32) (((List.replicate 56 (5:UInt8)).drop 44).take 12) = some encKey →
+      encKey.length < 65536 := by
+    intro ek h
+    have := hsl.enc_len _ _ _ _ _ h
+    rw [this]; decide
+  have hkpre : ∀ k' ∈ [[4,5]], ∀ encKey, toyOps.enc [1,2,3] [] ((List.replicate 56 5).take 32) (((List.replicate 56 (5:UInt8)).drop 44).take 12) = some encKey →
+      keyId toyOps k' [] = keyId toyOps [1,2,3] [] → toyOps.dec k' [] encKey = none := by
+    intro k' hk' encKey _ hid
+    simp only [List.mem_singleton] at hk'
+    subst hk'
+    exact absurd hid (by decide)
+  have hH : RoundTripHyps toyOps .block kvW kvR [9,9] (List.replicate 56 5) p :=
+    ⟨hs, [1,2,3], [[4,5]], [[1,2,9]], hkid, rfl, rfl, hkpre, hek, by rw [hpl']; decide⟩
+  obtain ⟨h1, _, h3⟩ := searchable_preprotected_container_roundtrip toyOps toy_hashLen .block .struct kvW kvR kvR [7] [9,9]
+    (List.replicate 56 5) (List.replicate 96 6) p dirty hH hH hnm hnr hp
+  exact ⟨p, hp, h1, h3⟩
+
+/-- executable instances for the non-vacuity examples of the bare-envelope theorems, whose hypotheses are
+about concrete outcomes (no crypto law is assumed there): `lenBoxOps` – the transparent box (all seal laws)
+with 32-byte hashes; `plainOps` – "sealing" appends a marker byte, keys are padded to the AcraStruct
+layout (45-byte public key, 84-byte wrapped key) -/
+def lenBoxOps : CryptoOps :=
+  { boxOps with hmac := fun _ m => (m ++ List.replicate 32 0).take 32,
+                sha256 := fun m => (m ++ List.replicate 32 0).take 32 }
+
+theorem lenBoxOps_hashLen : HashLen lenBoxOps where
+  hmac_len := by intro k m; simp [lenBoxOps, List.length_take]
+  sha_len := by intro m; simp [lenBoxOps, List.length_take]
+
+def plainOps : CryptoOps :=
+  { enc := fun _ _ m _ => some (m ++ [1]), dec := fun _ _ ct => some ct.dropLast,
+    wrap := fun _ _ m _ => some ((m ++ List.replicate 84 0).take 84), unwrap := fun _ _ ct => some (ct.take 32),
+    pubOf := fun p => (p ++ List.replicate 45 0).take 45, validPriv := fun _ => true, privOfSeed := id,
+    hmac := fun _ m => (m ++ List.replicate 32 0).take 32, sha256 := fun m => (m ++ List.replicate 32 0).take 32 }
+
+theorem plainOps_hashLen : HashLen plainOps where
+  hmac_len := by intro k m; simp [plainOps, List.length_take]
+  sha_len := by intro m; simp [plainOps, List.length_take]
+
+set_option maxRecDepth 100000 in
+/-- 8c: a raw AcraBlock (created with key `[1,2,3]` around `[9,9]`, transparent box) written to a searchable
+column by a symmetric-only client whose rotated key list still holds `[1,2,3]`, and read back. -/
+example :
+    let kv : KeyView := ⟨none, none, some [4,5], some [[4,5],[1,2,3]]⟩
+    ∃ e, createBlock lenBoxOps [1,2,3] [] [9,9] (List.replicate 56 5) = .ok e ∧
+      Searchable.searchableEncrypt lenBoxOps (some [7]) kv .struct e (List.replicate 96 6) =
+        .ok (Searchable.generateHMAC lenBoxOps [7] [9,9] ++ e) ∧
+      Searchable.column lenBoxOps (some [7]) (Searchable.clientDetector lenBoxOps kv) Searchable.PState.init
+        (Searchable.generateHMAC lenBoxOps [7] [9,9] ++ e) = .ok (Searchable.PState.init, some [9,9]) := by
+  intro kv
+  obtain ⟨e, he⟩ : ∃ e, createBlock lenBoxOps [1,2,3] [] [9,9] (List.replicate 56 5) = .ok e := by
+    cases h : createBlock lenBoxOps [1,2,3] [] [9,9] (List.replicate 56 5) with
+    | ok e => exact ⟨e, rfl⟩
+    | err => exact absurd h (by decide)
+    | panic => exact absurd h (by decide)
+  have hev : e = (match createBlock lenBoxOps [1,2,3] [] [9,9] (List.replicate 56 5) with | .ok b => b | _ => []) := by rw [he]
+  have hlen : e.length = 176 := by rw [hev]; decide
+  obtain ⟨h1, _, h3⟩ := searchable_preprotected_bare_block_roundtrip lenBoxOps lenBoxOps_hashLen .struct kv kv [7] e [9,9]
+    (List.replicate 96 6) Searchable.PState.init (by rw [hev]; decide) (by rw [hev]; decide) (by rw [hlen]; decide)
+    (by rw [hlen]; decide) (by rw [hev]; decide) (by rw [hev]; decide) (by rw [hev]; decide) (by rw [hev]; decide)
+    (fun x s hx hser => Searchable.process_struct_container_no_privs lenBoxOps kv rfl x s
+      (by have := infix_length_le hx; omega) hser)
+  exact ⟨e, he, h1, h3⟩
+
+set_option maxRecDepth 100000 in
+/-- 8d: a bare AcraStruct (`plainOps`, public key `[8]`) around `[9,9]` written to a searchable column and
+read back by a client holding the private key `[3]`. -/
+example :
+    let kv : KeyView := ⟨some [8], some [[3]], none, none⟩
+    ∃ e, createStruct plainOps [8] [] [9,9] (List.replicate 88 7) = .ok e ∧
+      Searchable.searchableEncrypt plainOps (some [7]) kv .block e (List.replicate 96 6) =
+        .ok (Searchable.generateHMAC plainOps [7] [9,9] ++ e) ∧
+      Searchable.column plainOps (some [7]) (Searchable.clientDetector plainOps kv) Searchable.PState.init
+        (Searchable.generateHMAC plainOps [7] [9,9] ++ e) = .ok (Searchable.PState.init, some [9,9]) := by
+  intro kv
+  obtain ⟨e, he⟩ : ∃ e, createStruct plainOps [8] [] [9,9] (List.replicate 88 7) = .ok e := by
+    cases h : createStruct plainOps [8] [] [9,9] (List.replicate 88 7) with
+    | ok e => exact ⟨e, rfl⟩
+    | err => exact absurd h (by decide)
+    | panic => exact absurd h (by decide)
+  have hev : e = (match createStruct plainOps [8] [] [9,9] (List.replicate 88 7) with | .ok b => b | _ => []) := by rw [he]
+  have hlen : e.length = 148 := by rw [hev]; decide
+  obtain ⟨h1, _, h3⟩ := searchable_preprotected_bare_struct_roundtrip plainOps plainOps_hashLen .block kv kv [7] e [9,9]
+    (List.replicate 96 6) Searchable.PState.init (by rw [hev]; decide) (by rw [hlen]; decide) (by rw [hlen]; decide)
+    (by rw [hev]; decide) (by rw [hev]; decide) (by rw [hev]; decide) (by rw [hev]; decide)
+    (Searchable.short_plain_not_opened plainOps kv [9,9] (by decide))
+  exact ⟨e, he, h1, h3⟩
 
 /-- 9: the same table for the AcraStruct kind on the stand-in instance with 32-byte hashes: `Encrypt`
 round-trips through `Decrypt`, and every consumer that accepts AcraStructs reveals the plaintext of the
